@@ -1204,11 +1204,38 @@ def norm_op(op):
 
 # ------------------------------------------------------------------------------------------
 
+def private_native():
+    """The shared verif-native binary can be rebuilt for ANOTHER tree by a check running in parallel with another
+    VERIF_REPO: take a private copy, under the build lock, of a build that is known to be for this tree."""
+    import shutil
+    d = os.path.join(common.WORK, "tmp", "c18")
+    os.makedirs(d, exist_ok=True)
+    dst = os.path.join(d, "verif-native-%d" % os.getpid())
+    for _ in range(4):
+        nat = common.build_native()
+        with common.Lock("native-build"):
+            toml = open(os.path.join(common.WORK, "native-src", "Cargo.toml")).read()
+            if ('"%s/%s"' % (common.REPO, CRATE)) in toml:
+                shutil.copy2(nat, dst)
+                return dst
+    raise Inconclusive("verif-native keeps being rebuilt for another tree by concurrent runs")
+
+
 def main(tier):
+    nat = None
+    try:
+        return main2(tier)
+    finally:
+        p = os.path.join(common.WORK, "tmp", "c18", "verif-native-%d" % os.getpid())
+        if os.path.exists(p):
+            os.unlink(p)
+
+
+def main2(tier):
     t0 = time.time()
     t = load()
     classify_jumps(t)
-    nat = common.build_native()
+    nat = private_native()
     H = make_harnesses(t, tier)
     nval, ntests, not_runnable, concrete_bad = validate_translator(t, nat, H)
     log("[C18] translator validated on %d concrete runs (%d unit tests of the repository); %d emitters specified, %d unspecified"
@@ -1247,8 +1274,9 @@ def main(tier):
             seen.add(key)
             ok, detail = replay_violation(t, nat, v)
             if not ok:
+                detail["script"] = " ".join(detail["script"])[-400:]
                 raise Inconclusive("counterexample of %s (%s) does not reproduce on the natively compiled writer/reader: %s"
-                                   % (name, v["what"], json.dumps(detail, default=str)[:600]))
+                                   % (name, v["what"], json.dumps({k: (str(x)[:300]) for k, x in detail.items()})[:1500]))
             rep.violation(key, "%s: %s" % (name, detail["observed"]), detail)
             bad = True
         if not bad:
@@ -1327,7 +1355,7 @@ def main(tier):
 
 def replay(path):
     d = json.load(open(path))
-    nat = common.build_native()
+    nat = common.build_native()           # (a private copy is not needed for a single command)
     r = d["replay"]
     if "script" in r:
         print(json.dumps(common.native(nat, "bc", *r["script"]), indent=1))
